@@ -613,6 +613,13 @@ func runStoreConc(progs [][]storeOp) []Event {
 	}
 	close(start)
 	wg.Wait()
+	// when everybody is done the caller looks at the store once more, by itself: what it sees is the outcome of all the
+	// operations above (whatever a concurrent read left behind in the store - a cached view, say - shows here)
+	for _, o := range []storeOp{{Op: "keys"}, {Op: "getall"}, {Op: "len"}} {
+		evs = append(evs, Event{"ev": "call", "g": len(progs) + 1, "op": o.Op, "k": o.K, "v": o.V, "m": mJSON(o.M), "d": o.D})
+		res, _ := applyStoreOp(s, o)
+		evs = append(evs, Event{"ev": "ret", "g": len(progs) + 1, "res": res})
+	}
 	return evs
 }
 
